@@ -90,6 +90,12 @@ Theorem C07_exp_sample_fl_error : forall prec emax (Hp : Prec_gt_0 prec) (Hpe : 
     <= (2 * u prec + u prec * u prec) * Rabs (B2R g / B2R lambda) + ((1 + u prec) * Rabs (B2R g) + 1) * eta prec emax.
 Proof. exact exp_sample_fl_error. Qed.
 
+(* C03 for Pareto's last step: a factor >= 1 never takes the sample below the scale (exactly) *)
+Theorem C07_scale_fl_ge_scale : forall prec emax (Hp : Prec_gt_0 prec) (Hpe : Prec_lt_emax prec emax) (s g : binary_float prec emax),
+  is_finite s = true -> is_finite g = true -> Rabs (rnd prec emax (B2R s * B2R g)) < bpow radix2 emax ->
+  0 <= B2R s -> 1 <= B2R g -> B2R s <= B2R (scale_fl prec emax Hp Hpe s g).
+Proof. exact scale_fl_ge_scale. Qed.
+
 Print Assumptions C07_scale_fl_def.
 Print Assumptions C07_scale_source.
 Print Assumptions C07_scale_fl_value.
@@ -103,3 +109,4 @@ Print Assumptions C07_recip_fl_value.
 Print Assumptions C07_neg_recip_fl_value.
 Print Assumptions C07_exp_sample_fl_def.
 Print Assumptions C07_exp_sample_fl_error.
+Print Assumptions C07_scale_fl_ge_scale.
